@@ -534,6 +534,10 @@ func (r *RowCache) uuidsByConditionsAsIndexes(conditions []ovsdb.Condition, nati
 		}
 		keys := []interface{}{}
 		if v.Kind() == reflect.Map && condition.Function == ovsdb.ConditionIncludes {
+			if v.Len() == 0 {
+				// every map includes the empty one: nothing to look up
+				return nil
+			}
 			for _, key := range v.MapKeys() {
 				keys = append(keys, key.Interface())
 			}
@@ -1304,7 +1308,38 @@ func valueFromColumnKey(info *mapper.Info, columnKey model.ColumnKey) (interface
 	if v.Kind() == reflect.Ptr && !v.IsNil() {
 		val = v.Elem().Interface()
 	}
-	return val, err
+	return canonicalIndexValue(val), err
+}
+
+// canonicalIndexValue gives the value of a set or map column a form that can
+// be used as (part of) an index value: a Go slice or map is not a valid map
+// key, a set has no order and the iteration order of a map is random. Equal
+// sets and equal maps get the same string, other values are returned as they
+// are.
+func canonicalIndexValue(val interface{}) interface{} {
+	v := reflect.ValueOf(val)
+	var elems []string
+	switch v.Kind() {
+	case reflect.Slice:
+		for i := 0; i < v.Len(); i++ {
+			elems = append(elems, fmt.Sprintf("%#v", v.Index(i).Interface()))
+		}
+	case reflect.Map:
+		iter := v.MapRange()
+		for iter.Next() {
+			elems = append(elems, fmt.Sprintf("%#v: %#v", iter.Key().Interface(), iter.Value().Interface()))
+		}
+	default:
+		return val
+	}
+	sort.Strings(elems)
+	unique := elems[:0]
+	for i, e := range elems {
+		if i == 0 || e != elems[i-1] {
+			unique = append(unique, e)
+		}
+	}
+	return fmt.Sprintf("%s{%s}", v.Kind(), strings.Join(unique, ", "))
 }
 
 func valueFromMap(aMap interface{}, key interface{}) (interface{}, error) {
